@@ -149,12 +149,27 @@ def _build_condition(
     # is_null / is_not_null for that. A NULL in the value set therefore matches
     # nothing and is dropped, and every result is explicitly restricted to
     # non-null rows.
+    def _member(values: List[Any]) -> pc.Expression:
+        # pc.is_in matches floats by bit pattern, so a set holding 0.0 missed
+        # rows holding -0.0 (and vice versa) although the two compare equal
+        # (SQL: -0.0 = 0.0, and `==` already treats them so). A zero in the
+        # set is therefore also tested with the equality kernel.
+        member = pc.is_in(field, value_set=pa.array(values))
+        zero = next(
+            (v for v in values
+             if isinstance(v, (int, float)) and not isinstance(v, bool) and v == 0),
+            None,
+        )
+        if zero is not None:
+            member = member | (field == zero)
+        return member
+
     def _in_condition() -> pc.Expression:
         values = [v for v in expr.value if v is not None]
         if not values:
             # IN () matches nothing (SQL semantics)
             return pc.scalar(False)
-        return pc.is_in(field, value_set=pa.array(values)) & field.is_valid()
+        return _member(values) & field.is_valid()
 
     def _not_in_condition() -> pc.Expression:
         values = [v for v in expr.value if v is not None]
@@ -163,7 +178,7 @@ def _build_condition(
             return field.is_valid()
         # `~pc.is_in(...)` alone KEEPS null rows (is_in returns false for them),
         # which contradicts the documented contract - hence the is_valid() guard.
-        return (~pc.is_in(field, value_set=pa.array(values))) & field.is_valid()
+        return (~_member(values)) & field.is_valid()
 
     op_handlers: Dict[FilterOp, Any] = {
         FilterOp.EQ: lambda: field == expr.value,
